@@ -53,6 +53,7 @@ def observe(case):
     files = htaio.write_case(case, gz=p["gz"])
     try:
         ta = htaio.load(files)
+        C.disturb(ta, case.get("pre"))
         ranks = list(p["ranks"])
         rows = {r: htaio.rows_of(ta.t, r) for r in ranks}
         bw = {}
